@@ -73,8 +73,8 @@ CHECKS = {
    design="4/C05"),
  "C06": dict(
    spec="spec/Tape.tla, Tape_MC.tla",
-   text="Residual programs are ordered forests of layers whose four edges carry (forward, backward) multipliers r_i/k_i; TLC enumerates every program with <= 4 (thorough 6; 7 without emission) layers and checks that on every path the forward and backward coefficient bags coincide (true gradient), that forward weights are r_i/k_i and that the add leaves the branch gradient unattenuated, refuting three deviations. Each emitted program with its path coefficients is built from the real residual_split/residual_add/residual_apply: with linear branches output and x.grad must equal the sum over the spec's paths; with nonlinear / unit-scaled branches the recursive closed form and its autograd; hooks check the unattenuated branch gradient; residual_apply must be bitwise the split/f/add sequence.",
-   note="float64 at 1e-10; taus in [1e-3, 1e3].",
+   text="Residual programs are ordered forests of layers whose four edges carry (forward, backward) multipliers r_i/k_i; TLC enumerates every program with <= 4 (thorough: 8, the full range of the property's quantifier: 2055 programs) layers and checks that on every path the forward and backward coefficient bags coincide (true gradient), that forward weights are r_i/k_i and that the add leaves the branch gradient unattenuated, refuting three deviations. Each emitted program with its path coefficients is built from the real residual_split/residual_add/residual_apply: with linear branches output and x.grad must equal the sum over the spec's paths; with nonlinear / unit-scaled branches the recursive closed form and its autograd; hooks check the unattenuated branch gradient; residual_apply must be bitwise the split/f/add sequence.",
+   note="float64 at 1e-10; taus in [1e-3, 1e3]; every program is first run in bf16/f16/f32 with the same taus (process history) at that precision's tolerance.",
    technique="TLA+ tape/path-algebra spec + TLC program enumeration replayed on the real residual ops",
    design="4/C06"),
  "C18": dict(
